@@ -104,13 +104,17 @@ type Contracts struct {
 	Axioms  []*Axiom
 	Conds   []*CondDecl
 	Globals map[string]string // pkg.var -> declaration (e.g. "guarded_by pkg.lock", "atomic", "init_only")
+	// closed interfaces: pkg.Iface -> the only dynamic types its values ever have (checked: every
+	// conversion to the interface in the program starts from one of them)
+	IfaceTypes map[string][]string
+	IfaceTypesAt map[string]string
 	Files   []string
 	Errors  []string
 }
 
 func newContracts() *Contracts {
 	return &Contracts{Funcs: map[string]*FuncContract{}, Ifaces: map[string]*FuncContract{}, Specs: map[string]*SpecFunc{},
-		Types: map[string]*TypeDecl{}, Globals: map[string]string{}}
+		Types: map[string]*TypeDecl{}, Globals: map[string]string{}, IfaceTypes: map[string][]string{}, IfaceTypesAt: map[string]string{}}
 }
 
 var labelRe = regexp.MustCompile(`^([A-Za-z][A-Za-z0-9_\-]*):\s+(.*)$`)
@@ -313,6 +317,18 @@ func (cs *Contracts) LoadFile(path string) {
 			default:
 				cs.errf(path, ln, "unknown type clause %q", parts[1])
 			}
+		case "iface-types":
+			cur, curType = nil, nil
+			nt := strings.SplitN(rest, ":", 2)
+			if len(nt) != 2 {
+				cs.errf(path, ln, "bad iface-types declaration %q", rest)
+				continue
+			}
+			k := pkg + "." + strings.TrimSpace(nt[0])
+			for _, t := range strings.Split(nt[1], ",") {
+				cs.IfaceTypes[k] = append(cs.IfaceTypes[k], strings.TrimSpace(t))
+			}
+			cs.IfaceTypesAt[k] = fmt.Sprintf("%s:%d", path, ln)
 		case "cond":
 			cur, curType = nil, nil
 			tf := strings.SplitN(strings.TrimSpace(rest), ".", 2)
